@@ -54,10 +54,23 @@ class TwoSidedSource(object):
         return self.p.get(asset, np.nan) * self.k
 
 
+class NoBarYetSource(object):
+    """a vendor listed first that knows the assets but has no bar yet at the sizing instant"""
+
+    def get_ask(self, dt, asset):
+        return np.nan
+
+    def get_bid(self, dt, asset):
+        return np.nan
+
+
 def mk_sizer(c, broker):
     if c.get('two_sided'):
         from qstrader.data.backtest_data_handler import BacktestDataHandler
-        dh = BacktestDataHandler(None, data_sources=[TwoSidedSource(c['prices'], c['two_sided'] == 'crossed')])
+        srcs = [TwoSidedSource(c['prices'], c['two_sided'] == 'crossed')]
+        if c.get('nan_first'):
+            srcs = [NoBarYetSource()] + srcs
+        dh = BacktestDataHandler(None, data_sources=srcs)
     else:
         dh = StubPrices(c['prices'])
     if c['kind'] == 'long_only':
@@ -77,7 +90,13 @@ def mk_universe(u):
         # the same instants as standard-library datetime objects (time-zone aware)
         when0 = when
         when = lambda i, e: when0(i, e).to_pydatetime()
-    return DynamicUniverse(dict((a, (missing if e is None else when(i, e))) for i, (a, e) in enumerate(u[1])))
+    real = dict((a, (missing if e is None else when(i, e))) for i, (a, e) in enumerate(u[1]))
+    if 'latemap' in flags:
+        # built on a provisional map (nobody listed yet); the public asset_dates attribute is given the real map afterwards
+        uni = DynamicUniverse(dict((a, None) for a in real))
+        uni.asset_dates = real
+        return uni
+    return DynamicUniverse(real)
 
 
 def handler(c):
